@@ -2,7 +2,7 @@
     exchanging packets, the AEAD instantiated by the symbolic ideal AEAD (a ciphertext is
     the tuple it was sealed from; a corrupted ciphertext is [None]). *)
 From Coq Require Import List ZArith Bool String.
-From V Require Import Lib.Corr Lib.Hex Gen.Params PktProt.PktNum PktProt.KeyPhase PktProt.KeyDerive.
+From V Require Import Lib.Corr Lib.Hex Gen.Params PktProt.PktNum PktProt.KeyPhase PktProt.KeyDerive PktProt.KeyPhaseSys.
 Import ListNotations.
 Open Scope Z_scope.
 
@@ -26,9 +26,19 @@ Inductive kop :=
 | KForge (from gen pn : Z).
     (* a misbehaving peer seals packet number pn with key generation gen of direction from *)
 
+(** operations of the composed system as the harness prints them *)
+Inductive yop :=
+| YKeyPhase (x : bool)
+| YSeal (x : bool) (skip : Z)
+| YDeliver (i now pto3 : Z)
+| YConfirm (x : bool).
+
 Inductive case :=
 | KPCase (kui fkui limit : Z) (ops : list kop)
-| KuCase (v2 : bool) (secret : string) (hashLen : Z) (expand : list (string * string)) (next : string).
+| KuCase (v2 : bool) (secret : string) (hashLen : Z) (expand : list (string * string)) (next : string)
+| SysCase (kui fkui limit n0t n0f : Z) (ops : list yop) (obs : list (Z * Z * Z)).
+    (* the composed system of KeyPhaseSys.v (C05_keyphase_histories) against the real pair:
+       per operation the key phase of side true, of side false, and the class of the delivery (-1: none) *)
     (* getNextTrafficSecret(secret) = next; [expand]: label -> HKDF-Expand-Label(secret, label, "", hashLen)
        computed by the harness' own HKDF *)
 
@@ -97,6 +107,51 @@ Definition model_obs (c : case) : list kobs :=
     krun {| keyUpdateInterval := kui; firstKeyUpdateInterval := fkui |}
          {| epA := ua_new 1 0 limit; epB := ua_new 0 1 limit; pkts := [] |} ops
   | KuCase _ _ _ _ _ => []
+  | SysCase _ _ _ _ _ _ _ => []
+  end.
+
+Definition ysop (nsent : nat) (op : yop) : sop Z Z :=
+  match op with
+  | YKeyPhase x => SKeyPhase Z Z x
+  | YSeal x skip => SSeal Z Z x (Z.to_nat skip) (Z.of_nat nsent) (Z.of_nat nsent)
+  | YDeliver i now pto3 => SDeliver Z Z (Z.to_nat i) now pto3
+  | YConfirm x => SConfirm Z Z x
+  end.
+
+Definition ydeliver_class (s : KeyPhaseSys.sys Z Z) (op : yop) : Z :=
+  match op with
+  | YDeliver i now pto3 =>
+    match nth_error (sent s) (Z.to_nat i) with
+    | Some p =>
+      cls_of i (fst (ua_open sct Z Z sym_open (ep (sd s (negb (p_from p)))) now pto3 (p_pn p) (p_gen p mod 2) (p_ad p)
+                             (p_ct sct Z Z sym_seal p)))
+    | None => -2
+    end
+  | _ => -1
+  end.
+
+Fixpoint yrun (c : kcfg) (s : KeyPhaseSys.sys Z Z) (ops : list yop) : list (Z * Z * Z) :=
+  match ops with
+  | [] => []
+  | op :: r =>
+    let cl := ydeliver_class s op in
+    let s' := sstep sct Z Z sym_seal sym_open c s (ysop (List.length (sent s)) op) in
+    (keyPhase (ep (sd s' true)), keyPhase (ep (sd s' false)), cl) :: yrun c s' r
+  end.
+
+Definition model_sys_obs (c : case) : list (Z * Z * Z) :=
+  match c with
+  | SysCase kui fkui limit n0t n0f ops _ =>
+    yrun {| keyUpdateInterval := kui; firstKeyUpdateInterval := fkui |}
+         (sinit Z Z limit (fun x => if x then n0t else n0f)) ops
+  | _ => []
+  end.
+
+Fixpoint obs3_eqb (a b : list (Z * Z * Z)) : bool :=
+  match a, b with
+  | [], [] => true
+  | (x1, y1, z1) :: a', (x2, y2, z2) :: b' => (x1 =? x2) && (y1 =? y2) && (z1 =? z2) && obs3_eqb a' b'
+  | _, _ => false
   end.
 
 Definition model_next_secret (c : case) : list Z :=
@@ -135,6 +190,7 @@ Definition check_case (c : case) : bool :=
   match c with
   | KPCase _ _ _ ops => all2 kobs_eqb (map obs_of ops) (model_obs c)
   | KuCase _ _ _ _ next => negb (zeqb_list (hx next) []) && zeqb_list (model_next_secret c) (hx next)
+  | SysCase _ _ _ _ _ _ obs => obs3_eqb obs (model_sys_obs c)
   end.
 
 (** A concrete well-formed single-endpoint history used as non-vacuity witness in Props/C05.v:
